@@ -12,6 +12,14 @@ CLAIMS = {
   "every obligation is discharged for all operands with 64-bit integers as bit-vectors and IEEE floats. The tree-walking recursion above the leaves "
   "(evaluation order, scoping) is carried by assumed frame contracts, so this is a proof of the leaf semantics and of evaluation-order clauses inside the verified callers, not of whole-program meaning.",
   "Assumed (reported per run in the evidence as ASSUMED PRECONDITION / ASSUMED CLAUSE notes): operand values handed to the leaf operations are well-formed (wfObj: no typed-nil, small arrays within their length bound) - a data invariant of evaluated values that the dispatcher does not establish; (*State).quote's contract; stdlib contracts in contracts/stdlib.contracts; strings shorter than 2^46."),
+ "C02": ("proof",
+  "Structural core decided on SSA: the printer and the parser take operator precedence from one and the same table (every precedence lookup in packages parser and ast reads ast.Precedences, which nothing writes after package initialisation), so the printer's parenthesisation and the parser's grouping cannot drift apart through a table edit. "
+  "The identity parse(print(t)) = t itself relates two recursive algorithms over all programs and the parser (function-value dispatch) is outside the verifier's subset: bounded stand-in over 1264 source texts (repository examples and tests, every ordered pair of the 18 binary operators in three nestings, every prefix/binary combination, 35 statement shapes), normal and compact mode, structure compared by fully parenthesised print. It found a genuine defect that is fixed (a - (b - c) formatted as a - b - c; adjacent signs in compact mode) and one that is recorded (the parentheses of a + chain are dropped, which the repository's own parser test requires).",
+  "The structural clause is an audit (no SMT obligations). The round trip is bounded only: this is the weakest claim in the set."),
+ "C03": ("proof",
+  "Structural core decided on SSA: formatting is a function of the tree and the mode flags only - no function reachable from the PrettyPrint methods, DebugString or the PrintState methods reads a package-level variable that is written after initialisation, ranges over a map, or can reach time / random / os functions; this is the 'in any process, after any other inputs were parsed' part of the property, for every input. "
+  "The fixpoint print(parse(print(t))) = print(t) and the single trailing newline are covered by a bounded stand-in on the C02 corpus (both modes, two rounds per process), labelled bounded.",
+  "Audits only (no SMT obligations); the parser's own determinism is not audited; the fixpoint is bounded only."),
  "C04": ("proof",
   "Proved for all inputs: the guard discipline of the function-result cache. applyFunction stores a result only when the callee scope's miss counter did not move during the body and the result is not an error (preconditions at the call to Cache.Set), and every call that could not be cached is counted in the caller's scope (the genuine defect found here - a callee's outside lookup did not reach the caller - is fixed); "
   "the miss counter of every scope is monotone across every evaluator step and every Environment getter/setter (quantified frame clause on 30 functions), and applyExtension counts an extension marked DontCache before calling it. "
@@ -88,8 +96,6 @@ CLAIMS = {
 }
 
 NOT_APPLICABLE = {
- "C02": "print-then-parse identity is a correctness statement about the Pratt parser composed with the printer: the parser dispatches through maps of function values (outside govc's subset: such a call havocs everything) and the statement needs an induction over the grammar relating two recursive algorithms; no per-function contract within reach expresses it, and deciding it by generating programs and comparing trees would be testing, a different technique (DESIGN.md 8.2)",
- "C03": "the formatting fixpoint and its determinism are statements about printer o parser o printer over all accepted texts; same obstacle as C02 (parser outside the verifier's subset, whole-algorithm induction); only the trivial clause 'output ends with one newline' is per-function and it needs a ghost model of the io.Writer contents that was not built (DESIGN.md 8.2)",
 }
 
 def main():
